@@ -140,6 +140,10 @@ func init() {
 			return e.normStr(e.bytesOf(caller, site, args[0]))
 		})
 	}
+	// cloning a string gives an equal string (strings are values here)
+	for _, n := range []string{"strings.Clone", "internal/stringslite.Clone"} {
+		reg(n, func(e *Exec, th *Thread, caller *Frame, site ssa.Instruction, args []Value) Value { return args[0] })
+	}
 	reg("math/rand.Intn", func(e *Exec, th *Thread, caller *Frame, site ssa.Instruction, args []Value) Value {
 		n, ok := e.constInt(args[0])
 		if !ok || n <= 0 {
